@@ -1,1 +1,41 @@
-Definition placeholder := 0.
+(* C15 -- Encoded serializations declare their encoding (the injection filter; PARTIAL for the byte level). *)
+From Coq Require Import NArith List Bool.
+From Verif Require Import Sx Str Tok.
+From Verif.Model Require Import C15.
+From Verif.Proofs Require Import C15.
+Import ListNotations.
+Local Open Scope N_scope.
+
+(* for EVERY stream without an EmptyTag named head in which every opened head is closed: the output minus the
+   injected token is the input, token for token and in order, and the only difference is the VALUE of attributes
+   of meta tokens (same namespace, name, attribute keys and order): everything else is left unchanged *)
+Theorem c15_only_meta_values_change : forall enc ts,
+  forallb not_empty_head ts = true -> pending (snd (run_steps enc init ts)) = [] ->
+  Forall2 rel ts (noninj (fst (run_steps enc init ts))).
+Proof. exact imc_only_meta_values_change. Qed.
+
+(* a rewritten meta declares the encoding: its charset attribute is the encoding, or it is a content-type
+   pragma whose content is "text/html; charset=<encoding>"; a rewrite keeps every attribute key *)
+Theorem c15_rewrite_declares : forall enc a,
+  snd (rewrite_meta enc a) = true -> declares enc (fst (rewrite_meta enc a)).
+Proof. exact rewrite_meta_declares. Qed.
+Theorem c15_rewrite_keeps_keys : forall enc a, map fst (fst (rewrite_meta enc a)) = map fst a.
+Proof. exact rewrite_meta_keys. Qed.
+(* ... and so does the injected token: <meta charset=ENCODING> *)
+Theorem c15_injected_declares : forall enc,
+  match injected enc with TEmpty _ n a => is_name s_meta n = true /\ declares enc a | _ => False end.
+Proof. exact injected_declares. Qed.
+
+(* PARTIAL: "exactly one token is injected, directly after the head start tag, and only when no declaration was
+   found before </head>" is visible in the model (step: the EndTag-head case) and validated by correspondence, but
+   not stated as a theorem; the byte-level claims (every unencodable character becomes a character reference, the
+   prescan finds the declaration, the decoded tree is the same) are decided by the end-to-end run over all
+   codecs of webencodings.LABELS, with three recorded findings (non-ASCII-compatible encodings, raw-text
+   elements, C1 controls). *)
+
+(* non-vacuity: <head><title></title></head> gets <meta charset=utf-8> right after <head> *)
+Example c15_example :
+  IMC [117;116;102;45;56] [TStart None s_head []; TStart None [116] []; TEnd None [116]; TEnd None s_head] =
+  [TStart None s_head []; TEmpty None s_meta [((None, s_charset), [117;116;102;45;56])];
+   TStart None [116] []; TEnd None [116]; TEnd None s_head].
+Proof. vm_compute. reflexivity. Qed.
